@@ -244,6 +244,14 @@ class Symx:
             if ck in ('IntegralToBoolean', 'FloatingToBoolean'):
                 return sp.Ne(v, 0)
             return v
+        if k == 'Member' and strip(e['base']).get('k') == 'Index' and not e.get('method'):
+            idx = []
+            b = e['base']
+            while strip(b)['k'] == 'Index':
+                b = strip(b)
+                idx.insert(0, self.sym(b['idx'], st))
+                b = b['base']
+            return Function('%s.%s' % (self.lv_name(b), e['name']), real=True)(*idx)
         if k == 'Ref' or k == 'Member':
             key = self.lv_key(e)
             if key is not None and key in st.env:
